@@ -82,3 +82,12 @@ CHECKS["C14"] = (
     "DESIGN.md#c14",
 )
 NA.pop("C14", None)
+
+CHECKS["C10"] = (
+    "other",
+    "static analysis: read footprints of cached scene producers vs Scene.__hash__; interprocedural write effects rooted at the source scene (flow-sensitive aliases, held-element refs); class-table implication for hasattr guards",
+    "Decides structurally, for all scenes and histories: every cached scene quantity reads only the forest, the geometries and the base frame, all covered by the scene hash; copy / scaled / convert_units / subscene / + / dump / to_mesh / to_geometry / reconstruct_instances have no write effect rooted at the source scene (memo fills, lazily created defaults and the visuals' cache->data normalisation aside); aggregates iterate node instances; a hasattr guard in an aggregate implies the attribute that is read for every geometry class, and element-wise combined per-instance lists share their filter. Composition of nested transforms and numerical equality with explicit placement are not decided.",
+    "Trusted: E1 effect model, typing conventions, LAZY_GETTERS table; geometry kinds = in-repo subclasses of parent.Geometry.",
+    "DESIGN.md#c10",
+)
+NA.pop("C10", None)
